@@ -65,8 +65,8 @@ type p2relay struct {
 	addr string
 }
 
-func (m *p2relay) Name() string             { return fmt.Sprintf("relay-%d", m.idx) }
-func (m *p2relay) Address() string          { return m.addr }
+func (m *p2relay) Name() string              { return fmt.Sprintf("relay-%d", m.idx) }
+func (m *p2relay) Address() string           { return m.addr }
 func (m *p2relay) Pubkey() *phase0.BLSPubKey { return nil }
 
 type p2full struct{ *p2relay }
